@@ -311,7 +311,7 @@ def judge_history(res, trace, exp, negotiated, what, inp):
     if results[:len(exp)] != ['R:ok'] * len(exp) or len(writes) < len(exp):
         res.failures.append(dict(cls='history', what='%s: %d calls, results %s, %d writes' % (what, len(exp), results[:len(exp)], len(writes)), input=inp)); return
     for n, ((op, payload, cflag), w) in enumerate(zip(exp, writes)):
-        if negotiated and cflag:
+        if negotiated and cflag and w.startswith(('Z:', 'W!')):      # compression is permitted here, not required: a plain frame is judged below
             if w != 'Z:%d:%s' % (op, payload.hex()):
                 res.failures.append(dict(cls='compressed-send', what='%s: call %d: a peer honouring the negotiated parameters does not restore the payload (or RSV1 missing)' % (what, n), input=inp,
                                          observed=w[:120], expected=('Z:%d:%s' % (op, payload.hex()))[:120])); return
@@ -555,8 +555,8 @@ def explore(res, tier, seed, model_ok=True):
             fail('accepted call wrote %d frames' % len(mine)); continue
         w = mine[0]
         compressed = neg and ((a[0] in ('send_text', 'send_binary') and a[2]) or a[0] == 'send_json')
-        if compressed:
-            if not w.startswith('Z:') or w != 'Z:%d:%s' % (exp[1], exp[2].hex()):
+        if compressed and w.startswith(('Z:', 'W!')):        # compression is permitted here, not required: a plain frame is judged below
+            if w != 'Z:%d:%s' % (exp[1], exp[2].hex()):
                 fail('compressed frame does not restore the payload (or RSV1 missing): %s' % w[:80], cls='compressed-send')
             continue
         if not w.startswith('W:'):
